@@ -61,6 +61,60 @@ func TestC09(t *testing.T) {
 		dopts := *o
 		dopts.MaxArr = 8
 		docs.AddDefaults(rt, f.Root, 0.8, &dopts, func(n *model.Node) bool { return defaultAllowed(c, n) })
+		// text that a formatting verb would mangle, in scalar and array string defaults
+		if rapid.IntRange(0, 2).Draw(rt, "percentdefaults") == 0 {
+			texts := []string{"%Y-%m-%d", "a%20b", "100%% sure", "%d items", "50% off", "%s", "%v%v", "%!x", "x%", "%"}
+			plainString := func(n *model.Node) bool {
+				r := n.Resolve()
+				return r != nil && r.Kind == model.KString && r.Pattern == "" && r.Format == "" && r.MinLength == nil && r.MaxLength == nil
+			}
+			for _, p := range f.Root.Props {
+				d := p.Node.Default
+				if d == nil {
+					continue
+				}
+				switch {
+				case d.K == jv.Str && plainString(p.Node):
+					v := jv.StrV(rapid.SampledFrom(texts).Draw(rt, "pct"))
+					p.Node.Default = &v
+					c.Count("shape.percent_default.scalar")
+				case d.K == jv.Arr && len(d.A) > 0 && p.Node.Resolve().Kind == model.KArray && p.Node.Resolve().Items != nil && plainString(p.Node.Resolve().Items):
+					a := jv.V{K: jv.Arr, A: append([]jv.V{}, d.A...)}
+					for i := range a.A {
+						if rapid.Bool().Draw(rt, "pctelem") {
+							a.A[i] = jv.StrV(rapid.SampledFrom(texts).Draw(rt, "pct"))
+						}
+					}
+					p.Node.Default = &a
+					c.Count("shape.percent_default.array")
+				}
+			}
+		}
+		if rapid.IntRange(0, 3).Draw(rt, "percentarray") == 0 {
+			texts := []string{"%Y-%m-%d", "a%20b", "100%% sure", "%d items", "50% off", "%s", "plain", "x%y"}
+			k := rapid.IntRange(1, 4).Draw(rt, "pctn")
+			a := jv.ArrV()
+			for i := 0; i < k; i++ {
+				a.A = append(a.A, jv.StrV(rapid.SampledFrom(texts).Draw(rt, "pcttext")))
+			}
+			f.Root.Props = append(f.Root.Props, model.Prop{Name: "zformats", Node: &model.Node{Kind: model.KArray, Items: &model.Node{Kind: model.KString}, Default: &a}})
+			sv := jv.StrV(rapid.SampledFrom(texts).Draw(rt, "pctscalar"))
+			f.Root.Props = append(f.Root.Props, model.Prop{Name: "zformat", Node: &model.Node{Kind: model.KString, Default: &sv}})
+			c.Count("shape.percent_default.explicit")
+		}
+		// fractional defaults on fields whose Go type is a named type with "int" in its name
+		if rapid.IntRange(0, 2).Draw(rt, "intnameddefaults") == 0 {
+			tint := &model.Node{Kind: model.KNumber}
+			dn := rapid.SampledFrom([]string{"Tint", "Point", "Hint", "Printer"}).Draw(rt, "intname")
+			f.Defs = append(f.Defs, model.Def{Name: dn, Node: tint})
+			d1 := jv.NumLit(rapid.SampledFrom([]string{"0.35", "1.5", "-2.25", "0.5"}).Draw(rt, "fracdef"))
+			f.Root.Props = append(f.Root.Props, model.Prop{Name: "ztinted", Node: &model.Node{Kind: model.KRef, Ref: "#/$defs/" + dn, Target: tint, Default: &d1}})
+			d2 := jv.ArrV(jv.NumLit("0.25"), jv.NumLit("0.75"))
+			f.Root.Props = append(f.Root.Props, model.Prop{Name: "ztints", Node: &model.Node{Kind: model.KArray, Items: &model.Node{Kind: model.KRef, Ref: "#/$defs/" + dn, Target: tint}, Default: &d2}})
+			d3 := jv.NumLit("1.5")
+			f.Root.Props = append(f.Root.Props, model.Prop{Name: "pointSize", Node: &model.Node{Kind: model.KEnum, EnumType: "number", EnumVals: []jv.V{jv.NumLit("0.5"), jv.NumLit("1.5"), jv.NumLit("2.5")}, Default: &d3}})
+			c.Count("shape.fraction_default_on_int_named_type")
+		}
 		if rapid.IntRange(0, 3).Draw(rt, "defaultcollision") == 0 {
 			// two structurally identical object schemas that compete for one Go type name and differ
 			// only in their defaults: each must keep its own defaults
